@@ -216,6 +216,41 @@ Definition complement (v : impl) (m : moltype) (s : str) : res str :=
 Definition rc (v : impl) (m : moltype) (s : str) : res str :=
   bind (complement v m s) (fun c => Ok (rev c)).
 
+(** ---- sequence objects as views ----
+    A Sequence holds a SeqView; [seq.rc()] does not touch the data: it builds a sequence on
+    [self._seq[::-1]], a REVERSED view, and [str()] / [bytes()] / [array()] of a sequence whose view
+    is reversed complement what the view yields.  The model keeps what the view yields
+    ([sv_under], already in view order) and the pending-complement flag ([sv_rev] = [_seq.is_reversed]). *)
+Record sview := mk_sview { sv_under : str; sv_rev : bool }.
+Inductive vop := ORc | OComp | OSlice (a b : Z).
+
+(** [s[a:b]] for any Python ints *)
+Definition pyslice {A} (s : list A) (a b : Z) : list A :=
+  let n := zlen s in
+  let norm := fun i => if i <? 0 then Z.max 0 (i + n) else Z.min i n in
+  firstn (Z.to_nat (norm b - norm a)) (skipn (Z.to_nat (norm a)) s).
+
+(** [str(seq)] *)
+Definition sview_str (tbl : list (Z * Z)) (v : sview) : str :=
+  if sv_rev v then complement_pure tbl (sv_under v) else sv_under v.
+
+(** [seq.rc()]: the reversed view; [seq.complement()]: a fresh sequence made of
+    moltype.complement(bytes(self)) (old: moltype.complement(self), i.e. of str(self));
+    [seq[a:b]]: the view sliced in view coordinates *)
+Definition sview_op (tbl : list (Z * Z)) (v : sview) (o : vop) : sview :=
+  match o with
+  | ORc => mk_sview (rev (sv_under v)) (negb (sv_rev v))
+  | OComp => mk_sview (complement_pure tbl (sview_str tbl v)) false
+  | OSlice a b => mk_sview (pyslice (sv_under v) a b) (sv_rev v)
+  end.
+
+(** the strings seen after each of a list of operations *)
+Fixpoint sview_trace (tbl : list (Z * Z)) (v : sview) (ops : list vop) : list str :=
+  match ops with
+  | [] => []
+  | o :: r => let v' := sview_op tbl v o in sview_str tbl v' :: sview_trace tbl v' r
+  end.
+
 (* ------------------------------------------------------------------ new GeneticCode *)
 
 Definition product3 (b : list Z) : list str :=
